@@ -1,4 +1,5 @@
 import CloakModel.Model.Basic
+import CloakModel.Model.GoInt
 import CloakModel.Gen.Store
 
 /-! Model of the user database (`internal/server/usermanager/localmanager.go`), of the admin API
@@ -11,20 +12,7 @@ back" (modelled, not verified).  The model is parametric in `Facts` — the four
 tree is defective — and otherwise uses the `Gen.Store` terms directly.  Panics are explicit outcomes. -/
 
 namespace US
-
-/-! ### Go integer conversions (two's complement) -/
-
-/-- `uint64(v)` for an `int64`/`int` value -/
-def toU64 (v : Int) : Nat := (v % 18446744073709551616).toNat
-/-- `int64(n)` for a `uint64` value -/
-def toS64 (n : Nat) : Int :=
-  if n % 18446744073709551616 < 9223372036854775808 then ((n % 18446744073709551616 : Nat) : Int)
-  else ((n % 18446744073709551616 : Nat) : Int) - 18446744073709551616
-def toU32 (v : Int) : Nat := (v % 4294967296).toNat
-def toS32 (n : Nat) : Int :=
-  if n % 4294967296 < 2147483648 then ((n % 4294967296 : Nat) : Int) else ((n % 4294967296 : Nat) : Int) - 4294967296
-/-- the result of an `int64` operation whose mathematical value is `v` -/
-def wrap64 (v : Int) : Int := toS64 (toU64 v)
+open GoInt
 
 /-! ### keys, buckets, keyed lists -/
 
